@@ -28,7 +28,18 @@ def orders_for(ctx, names, quick_n=1):
 def fresh(ctx, order, warm=False):
     """A session with manager 0 declared in `order`; optionally with a used history."""
     s = Session(ctx)
-    s.new(0, order)
+    order = list(order)
+    if len(order) >= 2 and ctx.rng.random() < 0.3:
+        # declared in another sequence, brought to `order` by reordering: the declaration order of
+        # the `vars` dict then differs from the level order
+        decl = sorted(order)
+        if decl == order:
+            decl = order[::-1]
+        s.new(0, decl)
+        s.op(0, 'reorder', ','.join(f'{v}={i}' for i, v in enumerate(order)))
+        ctx.count('fresh:order-by-reordering')
+    else:
+        s.new(0, order)
     return s
 
 
